@@ -44,6 +44,9 @@ def public_call(seq, op):
     """Executes the public operation `op` with its fixed concrete arguments; returns the object to continue with."""
     if op == "add_absolute_message":
         seq.add_absolute_message(P.mk(P.cc(5, 7, 99)))
+    elif op == "add_absolute_cap":
+        end = max([m.time for m in copy.deepcopy(seq).abs._messages] + [0])
+        seq.add_absolute_message(P.mk(P.internal(end + 5)))
     elif op == "cutoff":
         seq.cutoff(6, 4)
     elif op == "quantise":
